@@ -736,3 +736,62 @@ func originsInter(p *Prog, v ssa.Value, depth int) []ssa.Value {
 	}
 	return out
 }
+
+// Range callbacks: the function that runs for each entry of a sync.Map.Range call, whether it is
+// a func literal or a (bound) method value; and the reverse index.
+func rangeCallbackFn(p *Prog, call ssa.CallInstruction) *ssa.Function {
+	args := call.Common().Args
+	if len(args) < 2 {
+		return nil
+	}
+	for _, o := range origins(args[1]) {
+		var fn *ssa.Function
+		switch x := o.(type) {
+		case *ssa.MakeClosure:
+			fn, _ = x.Fn.(*ssa.Function)
+		case *ssa.Function:
+			fn = x
+		}
+		if fn == nil {
+			continue
+		}
+		if fn.Synthetic != "" {
+			// bound method wrapper / thunk: the method it forwards to
+			var target *ssa.Function
+			eachCall(fn, func(c ssa.CallInstruction) {
+				if callee := c.Common().StaticCallee(); callee != nil && p.InRepo(callee) {
+					target = callee
+				}
+			})
+			if target != nil {
+				return target
+			}
+		}
+		return fn
+	}
+	return nil
+}
+
+var rangeIndexCache = map[*Prog]map[*ssa.Function][]ssa.CallInstruction{}
+
+// rangeCallsOf returns the sync.Map.Range calls for which fn is the per-entry callback.
+func rangeCallsOf(p *Prog, fn *ssa.Function) []ssa.CallInstruction {
+	idx, ok := rangeIndexCache[p]
+	if !ok {
+		idx = map[*ssa.Function][]ssa.CallInstruction{}
+		for f := range p.Funcs {
+			if !p.InRepo(f) || f.Blocks == nil {
+				continue
+			}
+			eachCall(f, func(c ssa.CallInstruction) {
+				if callIsMethod(c, "sync", "Map", "Range") {
+					if cb := rangeCallbackFn(p, c); cb != nil {
+						idx[cb] = append(idx[cb], c)
+					}
+				}
+			})
+		}
+		rangeIndexCache[p] = idx
+	}
+	return idx[fn]
+}
